@@ -167,6 +167,7 @@ def mktmp():
 PARTS = {
     "C02": ["c02", "c02b"],
     "C03": ["c03", "c03b"],
+    "C10": ["c10", "c10b"],
 }
 
 
